@@ -1,7 +1,7 @@
 # p_bundle engine: C46
 PROPS = {
     "C46": dict(
-        engine="p_bundle", quick_checks=8000, thorough_checks=16000, quick_shards=14, thorough_shards=16,
+        engine="p_bundle", quick_checks=6000, thorough_checks=16000, quick_shards=14, thorough_shards=16,
         quick_budget_s=300, thorough_budget_s=1500, thorough_race=True,
         gomaxprocs=[4, 8, 2, 4],  # per shard; 14-16 shards x 16 procs only makes the runtimes spin against each other
         needs_cli=False, level="fault_enumeration",
